@@ -18,7 +18,7 @@ N_HIST = {'quick': 1600, 'thorough': 120000}
 N_BIG = {'quick': 16, 'thorough': 1200}         # scale regime: 70-260 agents per population
 RULE = ('cases: seeded histories of <=60 ops (join, leave, re-join, attach, detach) interleaved over 2-3 live models drawn from '
         '{Environment, SpaceWorld, DiscreteWorld, LineWorld, GridWorld}, 4-5 user component classes, agents with arbitrary subsets '
-        '(incl. none), agents may re-join another live model\'s environment (migration); class A (50%): attach/detach only while not resident; class B: resident attach/detach followed by the '
+        '(incl. none), agents may re-join another live model\'s environment (migration); explicit register/deregister calls that are rejected (component not listed / already listed) in every class; class A (50%): attach/detach only while not resident; class B: resident attach/detach followed by the '
         'manual register/deregister call; class C: resident attach/detach unsynced. After every op all listings of all models '
         'are compared with the reference. Non-trivial: the history contains a leave of one of >=2 residents holding the same '
         'type, a re-join, and an empty-listing answer; distinct by (class, op trace) signature.')
@@ -49,6 +49,9 @@ def comp_classes(core):
         _comp_classes[4] = type('K4Home', (envs_.PositionComponent,), {'__slots__': ()})
         _comp_classes[0] = type('K0derivedFromK1', (_comp_classes[1],), {'__slots__': ()})   # subclass relation between user components
         _comp_classes.append(type('Nobody', (core.Component,), {'__slots__': ()}))
+        # container-like / switch-like user components: an empty inventory has len 0, a switch that is off is falsy
+        _comp_classes[2] = type('K2Inventory', (core.Component,), {'__slots__': (), '__len__': lambda self: 0})
+        _comp_classes[3] = type('K3Switch', (core.Component,), {'__slots__': (), '__bool__': lambda self: False})
     return _comp_classes
 
 
@@ -209,6 +212,45 @@ def case_history(ctx, case):
                 d1 = observe(ctx, models, types, step)
                 if d1 and cls == 'A':
                     fail('after installing an already populated world with set_environment', d1)
+        if rng.random() < 0.12:
+            # explicit scheduler calls that are rejected (KeyError) leave every listing of every model as it was: deregistering a
+            # component that is not listed (its agent is elsewhere / it is brand new / it lives in another model), registering one
+            # that is listed already
+            sig = lambda ds: [(m_.name, T_.__name__, [id(c_) for c_ in (g_ or [])], w_) for m_, T_, e_, g_, w_ in ds]   # noqa
+            d_before = sig(observe(ctx, models, types, step))
+            b = rng.choice(agents)
+            target = rng.choice(models)
+            how = rng.choice(['dereg_offline', 'dereg_new', 'dereg_other_model', 'reg_listed'])
+            comp = None
+            if how == 'dereg_offline' and not b.resident and b.comps:
+                comp = rng.choice(list(b.comps.values()))
+            elif how == 'dereg_new':
+                comp = rng.choice(types)(b.real, target.real)
+            elif how == 'dereg_other_model' and b.resident and b.comps and target is not b.mm:
+                comp = rng.choice(list(b.comps.values()))
+            elif how == 'reg_listed' and b.resident and b.comps:
+                comp = rng.choice(list(b.comps.values()))
+                target = b.mm
+                listed = target.real.systems[type(comp)]
+                if not (listed and any(c_ is comp for c_ in listed)):
+                    comp = None
+            if comp is not None:
+                call = target.real.systems.register_component if how == 'reg_listed' else target.real.systems.deregister_component
+                try:
+                    call(comp)
+                except KeyError:
+                    pass
+                else:
+                    raise CaseViolation(f'{call.__name__} of a component that is {"already" if how == "reg_listed" else "not"} listed in '
+                                        f'{target.name} was accepted', how=how, trace=trace[-10:])
+                ctx.count('rejected_explicit_calls')
+                ctx.count('rejected_' + how)
+                trace.append(f'rejected {call.__name__} ({how}) in {target.name}')
+                d_after = sig(observe(ctx, models, types, step))
+                if d_after != d_before:
+                    new_d = [d for d in d_after if d not in d_before] or d_after
+                    raise CaseViolation(f'a rejected {call.__name__} ({how}) changed the listings: {new_d[0][3]} for {new_d[0][1]} in {new_d[0][0]}',
+                                        trace=trace[-10:], history_class=cls)
         a = rng.choice(agents)
         mm = a.mm
         x = rng.random()
